@@ -46,18 +46,7 @@ Definition round_sim_ok (c : rcase) : bool :=
   | _ => false end.
 
 (* ---- the leaf tables of a core-model run (harness/coremodel.py fills them by calling the implementation) are the
-        bridged runtime: unmarshal side = C04's routine_case_ok, marshal side = marshal_case_ok above,
-        NoneTypeUnmarshaller: *)
+        bridged runtime: unmarshal side = C04's routine_case_ok / routine_unmodelled (Model/ScalarsEq.v), marshal side =
+        marshal_case_ok above, NoneTypeUnmarshaller: *)
 Definition ncase := (answers * val * res val)%type.
 Definition none_case_ok (c : ncase) : bool := let '(a, v, obs) := c in res_eqb (unm_none (rt_of a) v) obs.
-(* unmarshal side: C04's routine_case_ok with the enum lookup E(v) keyed by the value asked (rt_of keys it by "text or
-   not", which cannot tell the decoded text from a loaded value that is itself a str) *)
-Fixpoint lookup_val {B} (v : val) (l : list (val * B)) : option B :=
-  match l with [] => None | (k, b) :: r => if val_eqb v k then Some b else lookup_val v r end.
-Definition rt_of2 (a : answers) (en : list (val * res tok)) : Runtime :=
-  with_enum (rt_of a) (fun v => match lookup_val v en with Some r => r | None => enum_of_val (rt_of a) v end).
-Definition ucase := (routine * answers * list (val * res tok) * val * res val)%type.
-Definition unmarshal_case_ok (c : ucase) : bool :=
-  let '(r, a, en, v, obs) := c in res_eqb (run_routine (rt_of2 a en) r v) obs.
-Definition unmarshal_unmodelled (c : ucase) : bool :=
-  let '(r, a, en, v, obs) := c in match run_routine (rt_of2 a en) r v with Unmodelled => true | _ => false end.
